@@ -12,6 +12,7 @@ CONSTANTS
   MaxMember = 0
   MaxTimeout = 1
   MaxDrop = 0
+  MaxDup = 0
   MaxMisc = 0
   MaxAppend = 2
   Trailing = 1
